@@ -146,6 +146,29 @@ Example C15_bound_is_tight :
             sum_window (grants s) 9 20 = 3 /\ burst c + (20 - 9) / refresh c + 1 = 3.
 Proof. eexists. split; [vm_compute; reflexivity|]. vm_compute. repeat split; reflexivity. Qed.
 
+(* Late wake-up: the schedules in which State::advance is called with an OLDER tick.  A waiter computed its
+   wake-up tick `need` and sleeps; the clock runs k periods past its deadline; a Permit::drop at that later
+   tick (LDrop: advance(ticks(now))) comes before the waiter's LGrant (advance(need), need < refresh_ticks).
+   All of these are label lists, so C15_window_bound covers them; for them to stay within the bound the
+   older tick must be ignored: *)
+Theorem C15_advance_ignores_older_tick : forall c s t, t < rt s -> advance c s t = s.
+Proof. intros c s t H. unfold advance. apply Z.ltb_lt in H. rewrite H. reflexivity. Qed.
+Print Assumptions C15_advance_ignores_older_tick.
+
+(* burst 10, refresh 10 ns: the bucket is exhausted with one permit kept, a waiter parks (need = 1), the clock
+   jumps to 50 ns with nobody polled (OAdvX), the kept permit is dropped at tick 5, then the waiter and a
+   burst of acquires run: 15 permits in [0, 50] (bound 10 + 50/10 + 1 = 16), refresh_ticks stays 5. *)
+Example C15_late_wakeup_example :
+  let c := {| burst := 10; refresh := 10; start := 0 |} in
+  exists s, run_ops c (init c)
+      ([OAcq 9; OAcq 1; ODrop 0%nat; OAcq 1; OAdvX 50; ODrop 1%nat; ODrop 2%nat] ++
+       flat_map (fun i => [OAcq 1; ODrop i]) (seq 3 12)) = Ok s /\
+    sum_window (grants s) 0 50 = 15 /\ rt (st s) = 5 /\
+    In LGrant (script_labels c (init c) [OAcq 9; OAcq 1; ODrop 0%nat; OAcq 1; OAdvX 50; ODrop 1%nat]) /\
+    script_labels c (init c) [OAcq 9; OAcq 1; ODrop 0%nat; OAcq 1; OAdvX 50] =
+      [LBegin 9; LWait; LGrant; LBegin 1; LWait; LGrant; LDrop 0; LBegin 1; LWait; LTick 50].
+Proof. eexists. split; [vm_compute; reflexivity|]. vm_compute. repeat split; try reflexivity. tauto. Qed.
+
 (* a cancelled sleeper delays nobody's permits: the waiter behind it is served as if alone *)
 Example C15_cancel_example :
   run_case (2, 10, 3, [OAcq 2; ODrop 0%nat; OAcq 2; OAcq 1; OAdv 5; OCancel 1%nat; OAdv 4; OAdv 1; OAdv 100]) =
